@@ -25,8 +25,13 @@ Arguments COk {A}. Arguments CAssert {A}. Arguments COob {A}.
 Record lview := { lv_start : Z; lv_level : Z; lv_bl : Z; lv_end : Z }.
 
 (* SBEPP_SIZE_CHECK(begin, end, offset, size):
-     begin && (offset + size) <= static_cast<size_t>(end - begin) *)
+     begin && begin <= end && (offset + size) <= static_cast<size_t>(end - begin)
+   (the second conjunct was added by a "fix:" commit; [legacy_size_check] is the
+   macro before it) *)
 Definition size_check (begin end_ off size : Z) : bool :=
+  (begin <=? end_) && (off + size <=? (end_ - begin) mod 2 ^ 64).
+
+Definition legacy_size_check (begin end_ off size : Z) : bool :=
   off + size <=? (end_ - begin) mod 2 ^ 64.
 
 (* generated cursor accessor of a non-constant field: which primitive
